@@ -180,7 +180,7 @@ func interpretNext(p *Prog, sc arScenario) ([]arRun, string) {
 	_ = curRun
 	st := &State{Heap: map[int]*HObj{}, Notes: map[string]bool{}}
 	inID := st.alloc(types.Typ[types.Int], OpaqueV{"the-archive"})
-	arID := st.alloc(arT, mkStruct(arT, map[string]Val{"in": IfaceV{T: types.NewPointer(types.Typ[types.Int]), V: Ptr{Obj: inID}}, "offset": linSym("off")}))
+	arID := st.alloc(arT, mkStruct(arT, map[string]Val{roleField(arT, "io.ReaderAt", "in"): IfaceV{T: types.NewPointer(types.Typ[types.Int]), V: Ptr{Obj: inID}}, roleField(arT, "int64", "offset"): linSym("off")}))
 	st.push(next, []Val{Ptr{Obj: arID}}, nil)
 	m.AltFilter = func(st *State, v Val) Val {
 		if t, ok := v.(tagged); ok {
@@ -218,7 +218,7 @@ func interpretNext(p *Prog, sc arScenario) ([]arRun, string) {
 		}
 		if ar, ok := o.Heap[arID]; ok {
 			sv := ar.V.(*StructV)
-			r.newOff = sv.F[fieldIndex(structOf(arT), "offset")]
+			r.newOff = sv.F[fieldIndex(structOf(arT), roleField(arT, "int64", "offset"))]
 			var refs []int
 			valRefs(sv, &refs)
 			for _, id := range refs {
@@ -557,7 +557,7 @@ func c13Global(p *Prog, rp *Report) {
 			return "error", readOff
 		}
 		av, _ := outs[0].load(ap)
-		return valStr(av.(*StructV).F[fieldIndex(structOf(arT), "offset")]), readOff
+		return valStr(av.(*StructV).F[fieldIndex(structOf(arT), roleField(arT, "int64", "offset"))]), readOff
 	}
 	var problems []string
 	got, ro := try(magic+"rest", true)
